@@ -189,24 +189,53 @@ def call_main(argv):
         _APP_OUT.seek(0); _APP_OUT.truncate()
 
 
+def snapshot(root):
+    out = {}
+    for r, ds, fs in os.walk(root):
+        for f in fs:
+            pth = os.path.join(r, f)
+            out[os.path.relpath(pth, root)] = rd(pth)
+    return out
+
+
 def appseq_case(c, tmp):
-    """a sequence of p1_extract runs (main() in-process) of several inputs lying in one directory into the SAME output
-    (-o <dir> -p out). All inputs are written before the first run, as captures recorded side by side are."""
+    """a sequence of p1_extract runs (main() in-process, sys.argv patched) inside one case directory.  All inputs are written
+    before the first run.  A step is {"name": input file relative to the case directory, "hex", "frames", "arg": "file"|"dir"
+    (pass the file, or the directory that contains it), "o": output directory relative to the case directory | null (tool
+    default), "p": prefix | null (tool default), "relative": run with cwd = case directory and relative paths}.
+    After every step the whole directory tree is compared with its state before: the result lists every file that was
+    created, modified or deleted."""
     d = os.path.join(tmp, 's' + c['id'])
-    outdir = os.path.join(d, 'extracted')
-    os.makedirs(outdir)
-    paths = []
+    os.makedirs(d)
     res = {'id': c['id'], 'steps': []}
-    for i, st in enumerate(c['steps']):
-        data = bytes.fromhex(st['hex'])
+    for st in c['steps']:
         pth = os.path.join(d, st['name'])
+        os.makedirs(os.path.dirname(pth), exist_ok=True)
         with open(pth, 'wb') as f:
-            f.write(data)
-        paths.append(pth)
-    for pth, st in zip(paths, c['steps']):
+            f.write(bytes.fromhex(st['hex']))
+        if st.get('o'):
+            os.makedirs(os.path.join(d, st['o']), exist_ok=True)
+    cwd = os.getcwd()
+    for st in c['steps']:
         data = bytes.fromhex(st['hex'])
-        r = call_main(['-o', outdir, '-p', 'out', pth])
-        res['steps'].append({'ret': r, 'out': rd(os.path.join(outdir, 'out.p1log')), 'idx': rd(os.path.join(outdir, 'out.p1i')),
+        before = snapshot(d)
+        base = '' if st.get('relative') else d
+        target = st['name'] if st.get('arg', 'file') == 'file' else (os.path.dirname(st['name']) or '.')
+        argv = []
+        if st.get('o'):
+            argv += ['-o', os.path.join(base, st['o'])]
+        if st.get('p') is not None:
+            argv += ['-p', st['p']]
+        argv.append(os.path.join(base, target))
+        try:
+            if st.get('relative'):
+                os.chdir(d)
+            r = call_main(argv)
+        finally:
+            os.chdir(cwd)
+        after = snapshot(d)
+        diff = {k: after.get(k) for k in set(before) | set(after) if before.get(k) != after.get(k)}
+        res['steps'].append({'ret': r, 'argv': argv, 'changed': diff,
                              'p1': [[data[o:o + n].hex(), p1_of(data[o:o + n])] for o, n in st['frames']]})
     shutil.rmtree(d, ignore_errors=True)
     return res
